@@ -151,6 +151,9 @@ pub struct CheckDef {
     pub assumptions: &'static [&'static str],
 }
 
+/// Largest single allocation a simulated run may request (bounded-memory clauses).
+pub const ALLOC_CAP_BYTES: usize = 256 << 20;
+
 /// Run `f` on a fresh OS thread with the determinism seams seeded from `seed`.
 /// Returns Err(message) on panic.
 pub fn run_isolated<T: Send + 'static>(
@@ -163,6 +166,7 @@ pub fn run_isolated<T: Send + 'static>(
         .spawn(move || {
             interpose::seed_thread(seed);
             trace::reset(false);
+            alloc::set_thread_cap(ALLOC_CAP_BYTES);
             let r = std::panic::catch_unwind(std::panic::AssertUnwindSafe(f));
             interpose::unseed_thread();
             r
